@@ -92,7 +92,10 @@ class Run:
         outdir = os.path.join(self.build, "expanded")
         os.makedirs(outdir, exist_ok=True)
         out = os.path.join(outdir, package + ".rs")
-        tdir = os.path.join(self.root, "build", "expand-target")
+        import hashlib
+        # one target directory per checked tree: cargo names path-dependency artifacts by workspace-relative path, so a
+        # shared directory would let a proc-macro built from another checkout be reused as "fresh"
+        tdir = os.path.join(self.root, "build", "expand-target-" + hashlib.sha1(os.path.abspath(self.repo).encode()).hexdigest()[:10])
         rc, so, se, t = sh(["cargo", "+nightly", "rustc", "--offline", "-p", package, "--lib", "--", "-Zunpretty=expanded"],
                            cwd=self.repo, env={"CARGO_TARGET_DIR": tdir}, timeout=900)
         if rc != 0 or "fn " not in so:
